@@ -159,7 +159,8 @@ func (h *Host) NewStream(ctx context.Context, p peer.ID, pids ...protocol.ID) (n
 
 // Inject delivers raw bytes from `from` to `to` on proto as if a peer had written them (used by
 // adversaries and message-alteration harnesses). It returns a channel that receives the response
-// bytes written by the handler (nil when the handler closes without writing) .
+// bytes written by the handler (empty when the handler finished without writing) once the handler
+// has returned.
 func (n *Net) Inject(from, to peer.ID, proto protocol.ID, payload []byte, delay time.Duration) <-chan []byte {
 	resp := make(chan []byte, 1)
 	n.deliverRequest(&Envelope{From: from, To: to, Proto: proto, Payload: payload}, delay, func(b []byte) {
@@ -280,6 +281,9 @@ func (s *clientStream) flush() {
 		return
 	}
 	s.h.net.send(&Envelope{From: s.h.id, To: s.to, Proto: s.proto, Payload: out}, func(b []byte) {
+		if len(b) == 0 {
+			return // no response written
+		}
 		// response leg: its own fate
 		e := &Envelope{From: s.to, To: s.h.id, Proto: s.proto, Payload: b, Response: true, Request: out}
 		var f Fate
@@ -393,8 +397,8 @@ func (s *serverStream) finish() {
 		return
 	}
 	s.done = true
-	if len(s.out) > 0 && s.onResp != nil {
-		s.onResp(s.out)
+	if s.onResp != nil {
+		s.onResp(s.out) // empty: the handler finished without writing a response
 	}
 }
 
